@@ -2,6 +2,7 @@ import UvModel.DriverUtil
 import UvModel.Utf8
 import UvModel.Puny
 import UvModel.Wtf8
+import UvModel.GaiHost
 /-! line-protocol driver for the text half of C18; the other side is harness/c18_text.c.
     Ops (one per line; byte strings are hex, `-` = empty; UTF-16 units are 4-digit hex joined by `,`):
       u8 <hex>                 uv__utf8_decode1 on [p, pe)        -> u8 <value|-1> <consumed>
@@ -9,6 +10,9 @@ import UvModel.Wtf8
       w8 <hex>                 uv_wtf8_length_as_utf16 / to_utf16  -> w8 <len|-1> <units|->
       u16 <z|n> <units> <alloc|N>  uv_utf16_length_as_wtf8 / uv_utf16_to_wtf8
                                                                    -> u16 <len> <rc> <reported> <target bytes, untouched = aa>
+    mode `c18gai` (other side: harness/c18_gai.c, uv_getaddrinfo with the resolver interposed):
+      gai <host hex|-|null> <service hex|-|null> <null | flags,family,socktype,protocol> <sync|async|noreq> <ans>
+          -> gai rc=<rc> calls=<0|1> node=<hex|-|null> svc=<hex|-|null> hints=<null|f,f,s,p> status=<int|none> res=<0|1>
 -/
 namespace Drivers.C18Text
 open UvModel.DriverUtil
@@ -81,6 +85,45 @@ def step (_ : Unit) : List String → Unit × List String
     | _, _, _ => ((), ["bad-op"])
   | _ => ((), ["bad-op"])
 
-def modes : List (String × IO Unit) := [("c18text", runLines () step)]
+open UvModel.GaiHost in
+def parseOptBytes (s : String) : Option (Option (List Nat)) :=
+  if s = "null" then some none
+  else match parseBytes s with
+    | some l => if l.contains 0 then none else some (some l)
+    | none => none
+
+open UvModel.GaiHost in
+def parseHints (s : String) : Option (Option Hints) :=
+  if s = "null" then some none
+  else match (s.splitOn ",").mapM String.toInt? with
+    | some [f, fa, st, pr] => some (some { flags := f, family := fa, socktype := st, protocol := pr })
+    | _ => none
+
+def optHex : Option (List Nat) → String
+  | none => "null"
+  | some l => hexBytes l
+
+open UvModel.GaiHost in
+def gaiStep (_ : Unit) : List String → Unit × List String
+  | [] => ((), [])
+  | ["gai", h, s, hi, mode, ans] =>
+    let m? : Option Nat := if mode = "sync" then some 0 else if mode = "async" then some 1
+                           else if mode = "noreq" then some 2 else none
+    match parseOptBytes h, parseOptBytes s, parseHints hi, m?, ans.toInt?.bind translate with
+    | some host, some svc, some hints, some m, some tr =>
+      match prep (m == 2) host svc hints with
+      | .err rc => ((), [s!"gai rc={rc} calls=0 node=null svc=null hints=null status=none res=0"])
+      | .call node sv hn =>
+        let hs := match hn with
+          | none => "null"
+          | some x => s!"{x.flags},{x.family},{x.socktype},{x.protocol}"
+        let rc : Int := if m == 0 then tr else 0
+        let st := if m == 0 then "none" else toString tr
+        let res := if tr == 0 then 1 else 0
+        ((), [s!"gai rc={rc} calls=1 node={optHex node} svc={optHex sv} hints={hs} status={st} res={res}"])
+    | _, _, _, _, _ => ((), ["bad-op"])
+  | _ => ((), ["bad-op"])
+
+def modes : List (String × IO Unit) := [("c18text", runLines () step), ("c18gai", runLines () gaiStep)]
 
 end Drivers.C18Text
